@@ -89,13 +89,24 @@ static void dawson_erfi_inverf(unsigned long long& unit)
 	std::vector<double> ps;
 	for(int k = -2000; k <= 2000; k++) ps.push_back(k / 2000.5);
 	for(int k = 1; k <= 12; k++) { ps.push_back(1 - std::pow(10.0, -k)); ps.push_back(-(1 - std::pow(10.0, -k))); }
+	// up to the last doubles below one, and the ends themselves (answered by the saturation value, with the sign of p)
+	for(double d : {1e-13, 1e-14, 1e-15, 2.2204460492503131e-16, 1.1102230246251565e-16}) { ps.push_back(1 - d); ps.push_back(-(1 - d)); }
+	ps.push_back(1.0);
+	ps.push_back(-1.0);
 	for(size_t i = 0; i < ps.size(); i++)
 	{
 		if(!mc::mine(unit++)) continue;
-		double p = ps[i], v = 0;
+		double p = ps[i], v = 0, vm = 0;
 		std::string key = "p=" + mc::dec(p);
-		if(mc::library_exits([&]() { v = Inv_Erf(p); })) { fail("inverf", key, "terminated_process", "valid argument ended the process"); continue; }
+		if(mc::library_exits([&]() { v = Inv_Erf(p); vm = Inv_Erf(-p); })) { fail("inverf", key, "terminated_process", "valid argument ended the process"); continue; }
 		g_cases++;
+		if(!(std::fabs(v + vm) <= 2e-4)) fail("inverf", key, "inv_erf_not_odd", "Inv_Erf(p) = " + mc::dec(v) + " Inv_Erf(-p) = " + mc::dec(vm));
+		if(std::fabs(p) > 1 - 1e-12)
+		{
+			// beyond 1-1e-12 one ulp of p moves erfinv by more than 1e-4: only sign, size and oddness are stated
+			if(!(std::isfinite(v) && std::fabs(v) >= 5.0 && (v > 0) == (p > 0))) fail("inverf", key, "inv_erf_end_value", "Inv_Erf(" + mc::dec(p) + ") = " + mc::dec(v));
+			continue;
+		}
 		ld r = erfinv_ref(p);
 		if(!(fabsl(v - r) <= 1e-4L)) fail("inverf", key, "inv_erf_inaccurate", "Inv_Erf = " + mc::dec(v) + " erfinv = " + mc::dec((double)r));
 		else mc::maxi("inv_erf_err_over_1e-4", (double)(fabsl(v - r) / 1e-4L), key);
